@@ -562,7 +562,15 @@ def corr_cmif_case(ctx, fname, call, S, freq, nSv, lim):
     ctx.count("cmif_accepted")
 
 
+# --- default values as regenerated obligations (Generated/Defaults.lean <- harness/translate_defaults.py; stream defaults[...])
+import defaults_stream  # noqa: E402
+from common import all_pre_build as pre_build  # noqa: E402,F401,F811  (runs EVERY translate_*.py)
+LEAN_MODULES += ["PyomaVerif.Props.WiringDefaultsC20", "PyomaVerif.Props.WiringDefaultsLab"]
+THEOREMS += ["PV.WiringDefaults.C20_plot_defaults", "PV.WiringDefaults.C11_label_literals"]
+
+
 def correspondence(ctx):
+    defaults_stream.correspondence(ctx, props=('C20',))
     plot = _plot()
     plt = _plt()
     ssi_cls, pl_cls, fdd_cls = _classes()
